@@ -63,6 +63,7 @@ class SimChannel:
         self.inline_mode = False    # deliver inside send() to other networks
         self.monitors = []          # callables(frame) run when a frame hits the wire
         self.unsafe_driver = False  # Mode T: non-thread-safe TX path model
+        self.TXQ = 8                # depth of the senders' TX queue, in frames
         self._tx_slot = None
 
     def frame_time(self, dlc):
@@ -244,6 +245,14 @@ class SimBus(Endpoint, can.BusABC):
             can_id, data = ch._tx_slot
             ch.transmit(self, can_id, data, msg.is_remote_frame, msg.is_extended_id)
             return
+        # a bounded TX queue paces the sender: send() returns only when the
+        # frame is at most TXQ frame times away from the wire
+        ahead = ch.busy_until - ch.TXQ * ch.frame_time(8)
+        if ahead > ctx.now:
+            if ctx.threaded:
+                ctx.wait_until(lambda: False, ahead, "bus.send")
+            else:
+                ctx.now = ahead
         ch.transmit(self, msg.arbitration_id, bytes(msg.data), msg.is_remote_frame,
                     msg.is_extended_id)
         if ctx.threaded:
